@@ -194,7 +194,7 @@ pub fn run(ctx: &mut Ctx, _name: &str) {
         let c = ClusterConnector { name: "k1".into(), connector_type: "mqtt".into(), params, description: None };
         one(ctx, "stream A = T .where(x > 1)\nstream Out = A .to(k1)\n", &[c]);
     }
-    let n = if ctx.thorough { 30000 } else { 2500 };
+    let n = if ctx.thorough { 20000 } else { 2500 };
     for it in 0..n {
         ctx.directive(&format!("new r{}", it));
         let n1 = if ctx.rng.chance(1, 15) { *ctx.rng.pick(NAMES_BAD) } else { *ctx.rng.pick(NAMES_OK) };
